@@ -186,3 +186,11 @@ def c14(tier, seed):
 
 
 CHECKS.update({"C14": c14})
+
+
+def c12(tier, seed):
+    import c12 as m
+    return m.run(tier, seed)
+
+
+CHECKS.update({"C12": c12})
